@@ -52,6 +52,13 @@ var c19Files = map[string]string{
 	"embed.twig":       "{% embed 'base.twig' %}{% block b %}e{% endblock %}{% endembed %}",
 	"unclosed.twig":    "{% for i in z %}never closed",
 	"unclosedstr.twig": "{{ \"abc }} tail {{ x }}",
+	// names that resolve to a directory (pages/ exists below the loader's root), directly and through include / extends
+	"pages/sub.twig":    "sub {{ x }}",
+	"incsub.twig":       "a{% include 'pages/sub.twig' %}b",
+	"incdir.twig":       "a{% include 'pages' %}b",
+	"incemptyname.twig": "a{% include nosuchvar %}b",
+	"extdir.twig":       "{% extends 'pages' %}{% block a %}{% endblock %}",
+	"embdir.twig":       "a{% embed 'pages/' %}{% endembed %}b",
 }
 
 func c19Setup() *c19Envs {
@@ -62,6 +69,7 @@ func c19Setup() *c19Envs {
 	}
 	os.MkdirAll(e.dir, 0o755)
 	for n, s := range c19Files {
+		os.MkdirAll(filepath.Dir(filepath.Join(e.dir, n)), 0o755)
 		os.WriteFile(filepath.Join(e.dir, n), []byte(s), 0o644)
 	}
 	e.str = stick.New(nil)
@@ -90,7 +98,7 @@ func c19Ops() []c19Op {
 		names = append(names, n)
 	}
 	sort.Strings(names)
-	names = append(names, "nofile.twig")
+	names = append(names, "nofile.twig", "pages", "pages/", "", ".", "pages/nofile.twig", "valid.twig/x")
 	for _, n := range names {
 		n := n
 		add("exec/mem/"+n, func(e *c19Envs) error { return c19Exec(e.mem, n) })
@@ -109,6 +117,28 @@ func c19Ops() []c19Op {
 		for _, frag := range []string{"$", "{%", "\"", "{{ ("} {
 			src := strings.Join(toks[:i], "") + frag + strings.Join(toks[i:], "")
 			add(fmt.Sprintf("exec/str/inject@%d:%s", i, frag), func(e *c19Envs) error { return c19Exec(e.str, src) })
+		}
+	}
+	// an early error followed by a long remainder: whatever the lexer still has to deliver after the parser gave up
+	tails := map[string]func(n int) string{
+		"emptystrings": func(n int) string { return "{{ [" + strings.TrimSuffix(strings.Repeat("'', ", n), ", ") + "] }}" },
+		"sum":          func(n int) string { return "{{ a" + strings.Repeat(" + a", n) + " }}" },
+		"prints":       func(n int) string { return strings.Repeat("{{ a }}", n) },
+		"tags":         func(n int) string { return strings.Repeat("{% if a %}x{% endif %}", n) },
+		"text":         func(n int) string { return strings.Repeat("lorem ipsum ", n) },
+		"strings":      func(n int) string { return strings.Repeat("{{ \"x#{a}y\" }}", n) },
+	}
+	var tnames []string
+	for k := range tails {
+		tnames = append(tnames, k)
+	}
+	sort.Strings(tnames)
+	for _, head := range []string{"{{ a b }}", "{% nosuchtag %}", "{{ $ }}", "{% if %}", "{{ 'x' 'y' }}"} {
+		for _, tn := range tnames {
+			for _, n := range []int{1, 10, 50, 400} {
+				src := head + tails[tn](n)
+				add(fmt.Sprintf("exec/str/%s+%s*%d", head, tn, n), func(e *c19Envs) error { return c19Exec(e.str, src) })
+			}
 		}
 	}
 	return ops
